@@ -5,3 +5,6 @@ package comet
 // placeholders until the store harness provides the segment shards of C16 (3)
 var vC16StoreShards = func(tier string) []vShard { return nil }
 var vC16StoreReplay = func(c *vCtx, v *vViolation) bool { return false }
+
+// (C18's scheduler scenario S19 exists in the L2 build only)
+var vC18SchedShards = func(tier string) []vShard { return nil }
